@@ -7,10 +7,20 @@ the model evaluated by Coq on the model's exact counts, x ln x being p * (ln a -
 ln 1 .. ln n passed into the case as data (math.log); the constructor's acceptance / refusal of edge lists is
 compared with edges_ok.
 """
+import atexit
+import json
 import math
+import os
+import select
+import subprocess
+import sys
 import warnings
+from pathlib import Path
 
 import numpy as np
+
+if __name__ == '__main__':          # worker mode: make `lib` / `translate` importable
+    sys.path.insert(0, str(Path(__file__).resolve().parents[1]))
 
 from lib.kinds import Kind
 from lib import core
@@ -153,6 +163,69 @@ def base_case(**kw):
     return c
 
 
+class _Worker:
+    """The implementation runs in a child interpreter: a kernel that writes outside its arrays (what the uncorrected
+    bin estimate does one ulp below the last edge) then kills the child, not the check, and the case on which it died
+    is reported as the failing input."""
+    TIMEOUT = 300
+
+    def __init__(self):
+        self.p = None
+        self.buf = b''
+        self.crashes = 0
+
+    def start(self):
+        self.p = subprocess.Popen([sys.executable, str(Path(__file__).resolve()), '--worker'], stdin=subprocess.PIPE,
+                                  stdout=subprocess.PIPE, env=dict(os.environ))
+        self.buf = b''
+
+    def stop(self):
+        if self.p is not None:
+            try:
+                self.p.kill()
+                self.p.wait(timeout=10)
+            except Exception:
+                pass
+            self.p = None
+
+    def _readline(self):
+        fd = self.p.stdout.fileno()
+        while b'\n' not in self.buf:
+            r, _, _ = select.select([fd], [], [], self.TIMEOUT)
+            if not r:
+                return None
+            chunk = os.read(fd, 1 << 16)
+            if not chunk:
+                return b''
+            self.buf += chunk
+        line, self.buf = self.buf.split(b'\n', 1)
+        return line
+
+    def call(self, op, case):
+        if self.p is None or self.p.poll() is not None:
+            self.start()
+        try:
+            self.p.stdin.write((json.dumps([op, case]) + '\n').encode())
+            self.p.stdin.flush()
+            line = self._readline()
+        except (BrokenPipeError, OSError):
+            line = b''
+        if line is None:
+            self.stop()
+            return {'raised': 'Timeout', 'msg': f'no answer within {self.TIMEOUT} s (the kernel does not terminate?)'}
+        if not line:
+            rc = self.p.wait()
+            self.p = None
+            self.crashes += 1
+            return {'raised': 'ProcessCrashed', 'msg': f'the interpreter running scared died (exit status {rc}) on this case, '
+                    'or on memory corrupted while running an earlier one'}
+        return json.loads(line)
+
+
+WORKER = _Worker()
+atexit.register(WORKER.stop)
+
+
 class HistKind(Kind):
     name = 'mia_hist'
     header = HDR
@@ -179,7 +252,7 @@ class HistKind(Kind):
             else:
                 nbs = sorted({2 * wi + 1, 2 * wi + 2, [16, 1, 8, 2][wi % 4]})      # all of 1..16 over the eight widths
             for nb in nbs:
-                los = [0, -width * (nb // 2), 10 * width + (0.3 if width == 0.1 else 0)] if thorough else [rng.choice([0, 0, -width * (nb // 2), 5 * width])]
+                los = [rng.choice([0, 10 * width]), -width * (nb // 2) + (0.3 if width == 0.1 else 0)] if thorough else [rng.choice([0, 0, -width * (nb // 2), 5 * width])]
                 for lo in los:
                     edges = uniform_edges(lo, width, nb)
                     yield self._probe_case(rng, edges, 'float64', family=f'probe_w{width}')
@@ -210,8 +283,11 @@ class HistKind(Kind):
         for i in range(10 if not thorough else 60):
             yield self._class_case(rng, i)
         # --- random structure
-        for i in range(16 if not thorough else 400):
+        for i in range(16 if not thorough else 300):
             yield self._random_case(rng)
+        # --- no edges configured: bins_number + the linspace over the first batch that the code builds itself (y_window)
+        for i in range(4 if not thorough else 24):
+            yield self._auto_case(rng, i)
         # --- analysis objects
         for i in range(6 if not thorough else 40):
             yield self._analysis_case(rng, i)
@@ -336,6 +412,25 @@ class HistKind(Kind):
                          batches=split_batches(rng, traces, data, rng.choice([1, 1, 2, 3, 4])),
                          precision=rng.choice(['uint32', 'uint32', 'float64', 'float32']), family='random')
 
+    def _auto_case(self, rng, i):
+        k = rng.choice([1, 2, 3, 5, 8, 16])
+        tdtype = ['uint8', 'float64', 'int16', 'float32'][i % 4]
+        n = rng.randint(6, 30)
+        S, W = rng.randint(1, 3), rng.randint(1, 2)
+        if tdtype in ('uint8', 'int16'):
+            lo = 0 if tdtype == 'uint8' else -40
+            traces = [[rng.randint(lo, lo + 80) for _ in range(S)] for _ in range(n)]
+        else:
+            traces = [[rng.randint(-64, 64) / 8 for _ in range(S)] for _ in range(n)]
+        traces[0][0], traces[1][0] = traces[0][0] + 1, traces[0][0]          # the first batch is not constant
+        parts = list(range(rng.choice([2, 4])))
+        data = draw_data(rng, n, W, parts, 0.15, 'uint8')
+        batches = split_batches(rng, traces, data, rng.choice([1, 2, 3]))
+        if len(batches[0]['traces']) < 2:
+            batches = [{'traces': traces, 'data': data}]
+        return base_case(edges=[], bins_number=k, parts=parts, tdtype=tdtype, batches=batches,
+                         precision=rng.choice(['uint32', 'float64']), family='auto')
+
     def _analysis_case(self, rng, i):
         mode = 'attack' if i % 2 == 0 else 'reverse'
         nb = rng.randint(2, 8)
@@ -366,13 +461,21 @@ class HistKind(Kind):
 
     # ------------------------------------------------------------------ implementation
     def run(self, case):
+        return WORKER.call(self.name, case)
+
+    def run_impl(self, case):
         import scared
-        edges = make_edges_obj(case['edges'], case['edges_kind'])
+        auto = case.get('bins_number')
+        edges = None if auto else make_edges_obj(case['edges'], case['edges_kind'])
         parts = make_parts_obj(case['parts'], case['parts_kind'])
+        extra_obs = {}
         with warnings.catch_warnings():
             warnings.simplefilter('ignore')
             if case['mode'] == 'dist':
-                d = scared.MIADistinguisher(bin_edges=edges, partitions=parts, precision=case['precision'])
+                if auto:
+                    d = scared.MIADistinguisher(bins_number=auto, partitions=parts, precision=case['precision'])
+                else:
+                    d = scared.MIADistinguisher(bin_edges=edges, partitions=parts, precision=case['precision'])
                 for b in case['batches']:
                     tr = np.array(b['traces'], dtype=case['tdtype'])
                     da = np.array(b['data'], dtype=case['ddtype'])
@@ -380,6 +483,9 @@ class HistKind(Kind):
                     d.update(tr, da)
                     if not (np.array_equal(tr, before[0]) and np.array_equal(da, before[1])):
                         return {'raised': 'InputModified', 'msg': 'update() modified its arguments'}
+                if auto:
+                    extra_obs = {'edges': [float(v) for v in np.asarray(d.bin_edges, dtype='float64')],
+                                 'y_window': [float(v) for v in d.y_window], 'bins_number': int(d.bins_number)}
                 res = d.compute()
                 res2 = d.compute()
                 acc = d.accumulators
@@ -428,7 +534,7 @@ class HistKind(Kind):
         return {'acc': [[[[int(v) for v in c] for c in b] for b in s] for s in np.asarray(acc).tolist()],
                 'acc_integral': bool(np.all(np.asarray(acc) == np.round(np.asarray(acc)))),
                 'res': [[float(v) for v in row] for row in res.tolist()], 'compute_twice_same': same,
-                'acc_dtype': str(acc.dtype), 'res_dtype': str(res.dtype)}
+                'acc_dtype': str(acc.dtype), 'res_dtype': str(res.dtype), **extra_obs}
 
     # ------------------------------------------------------------------ Coq literal
     def coq(self, case, obs):
@@ -447,7 +553,7 @@ class HistKind(Kind):
         else:
             acc = C.coq_list(obs['acc'], lambda s: C.coq_list(s, lambda b: C.coq_list(b, lambda c: C.coq_list(c, C.coq_z))))
             res = C.coq_list(obs['res'], lambda r: C.coq_list(r, F))
-        edges = [float(v) for v in case['edges']]
+        edges = [float(v) for v in (obs.get('edges', []) if case.get('bins_number') else case['edges'])]
         return ('{| mc_edges := %s; mc_parts := %s; mc_batches := %s; mc_ns := %s; mc_nw := %s; mc_ln := %s; mc_f32 := %s; '
                 'mc_obs_acc := %s; mc_obs_res := %s |}' % (
                     C.coq_list(edges, F), C.coq_list(case['parts'], C.coq_z), C.coq_list(batches),
@@ -456,6 +562,12 @@ class HistKind(Kind):
     def oracle(self, case, obs):
         if 'raised' in obs:
             return f'MIA ({case["mode"]}) raised {obs["raised"]}: {obs["msg"]}'
+        if case.get('bins_number'):
+            first = [x for r in case['batches'][0]['traces'] for x in r]
+            if len(obs['edges']) != case['bins_number'] + 1 or obs['bins_number'] != case['bins_number']:
+                return 'automatic bin edges: not bins_number + 1 edges'
+            if obs['edges'][0] != min(first) or obs['edges'][-1] != max(first) or obs['y_window'] != [min(first), max(first)]:
+                return 'automatic bin edges do not span [min, max] of the first batch'
         if not obs['acc_integral']:
             return 'accumulators hold non-integral counts'
         if not obs['compute_twice_same']:
@@ -480,11 +592,11 @@ class HistKind(Kind):
         if 'res' in obs:
             nn = sum(1 for r in obs['res'] for v in r if v != v)
             nan = 'none' if nn == 0 else 'some'
-        return {'family': case['family'].split('_w')[0], 'mode': case['mode'], 'nbins': len(case['edges']) - 1, 'precision': case['precision'],
+        return {'family': case['family'].split('_w')[0], 'mode': case['mode'], 'nbins': case.get('bins_number') or len(case['edges']) - 1, 'precision': case['precision'],
                 'tdtype': case['tdtype'], 'batches': len(case['batches']), 'nan_results': nan, 'edges_kind': case['edges_kind']}
 
     def tags(self, case, obs):
-        return ['mia_hist', 'mia_' + case['mode']]
+        return ['mia_hist', 'mia_' + case['mode']] + (['mia_' + obs['raised']] if 'raised' in obs else [])
 
     def sample(self, case, obs):
         c = {k: case[k] for k in ('mode', 'edges', 'parts', 'precision', 'tdtype', 'family')}
@@ -591,6 +703,9 @@ class EdgesKind(Kind):
         return e
 
     def run(self, case):
+        return WORKER.call(self.name, case)
+
+    def run_impl(self, case):
         import scared
         obj = make_edges_obj(case['edges'], case['kind'])
         try:
@@ -648,18 +763,47 @@ class EdgesKind(Kind):
 KINDS = [HistKind(), EdgesKind()]
 
 
-def extra(ctx):
-    """Type refusals of the bin_edges setter (outside the Coq model: Python types)."""
+def _type_refusals():
     import scared
     out = []
     for obj, name in (((0, 1, 2), 'tuple'), ('012', 'str'), (3, 'int'), ({0, 1, 2}, 'set')):
         try:
             scared.MIADistinguisher(bin_edges=obj, partitions=range(4))
-            out.append({'tags': ['mia_edges_type'], 'what': f'bin_edges given as {name} was accepted',
-                        'payload': {'property': ID, 'kind': 'mia_edges_type', 'case': {'bin_edges': repr(obj)}, 'how': 'TypeError expected'}})
+            out.append([name, repr(obj), 'was accepted'])
         except TypeError:
             pass
         except Exception as e:
-            out.append({'tags': ['mia_edges_type'], 'what': f'bin_edges given as {name} raised {type(e).__name__} instead of TypeError',
-                        'payload': {'property': ID, 'kind': 'mia_edges_type', 'case': {'bin_edges': repr(obj)}, 'how': 'TypeError expected'}})
-    return out
+            out.append([name, repr(obj), f'raised {type(e).__name__} instead of TypeError'])
+    return {'bad': out}
+
+
+def extra(ctx):
+    """Type refusals of the bin_edges setter (outside the Coq model: Python types)."""
+    r = WORKER.call('types', None)
+    WORKER.stop()
+    if 'raised' in r:
+        return [{'tags': ['mia_edges_type'], 'what': f'type-refusal probe: {r["raised"]} {r.get("msg", "")}',
+                 'payload': {'property': ID, 'kind': 'mia_edges_type', 'case': {}, 'how': r.get('msg', '')}}]
+    return [{'tags': ['mia_edges_type'], 'what': f'bin_edges given as {name} {what}',
+             'payload': {'property': ID, 'kind': 'mia_edges_type', 'case': {'bin_edges': rep}, 'how': 'TypeError expected'}}
+            for name, rep, what in r['bad']]
+
+
+def _worker_main():
+    from lib.kinds import exc_tag
+    import traceback
+    out = os.fdopen(os.dup(1), 'w')
+    os.dup2(2, 1)                       # anything the implementation prints goes to stderr, not into the protocol
+    kinds = {k.name: k for k in KINDS}
+    for line in sys.stdin:
+        op, case = json.loads(line)
+        try:
+            res = _type_refusals() if op == 'types' else kinds[op].run_impl(case)
+        except Exception as e:
+            res = {'raised': exc_tag(e), 'msg': str(e)[:200], 'tb': traceback.format_exc()[-600:]}
+        out.write(json.dumps(res) + '\n')
+        out.flush()
+
+
+if __name__ == '__main__' and '--worker' in sys.argv:
+    _worker_main()
